@@ -361,3 +361,50 @@ def rule_lookahead(repo, res):
         res.add(Finding("LEX-LOOKAHEAD", "lexer.lex_continue", "char_allowed(next_char)",
                         "lex_continue() no longer refuses to continue a lexeme into a character outside the dialect's set",
                         where=f"pvl/lexer.py:{lc.lineno}"))
+
+
+def rule_preserve_open(repo, res):
+    """PRESERVE-OPEN: whether a character opens a comment depends on that character and the one before it (and the
+    current state), never on the character that follows: an opener is an opener wherever it stands.  Path conditions
+    of every return of lex_multichar_comments / lex_singlechar_comments that hands back state=Preserve.COMMENT."""
+    from . import flow
+    n = 0
+    # which parameter of each lexer helper receives the look-ahead character: propagated from lexer(), where it is the
+    # variable assigned from _next_char(...), along the calls between the functions of lexer.py
+    mod = repo.module("lexer")
+    role = {}
+    lf = repo.function("lexer", "lexer")
+    start = {norm(a.targets[0]) for a in ast.walk(lf) if isinstance(a, ast.Assign) and _is_call_to(a.value, "_next_char")}
+    work = [("lexer", start)]
+    seen = set()
+    while work:
+        fname_, names = work.pop()
+        if (fname_, frozenset(names)) in seen or fname_ not in mod.functions:
+            continue
+        seen.add((fname_, frozenset(names)))
+        for c in ast.walk(mod.functions[fname_]):
+            if isinstance(c, ast.Call) and isinstance(c.func, ast.Name) and c.func.id in mod.functions:
+                hp = [a.arg for a in mod.functions[c.func.id].args.args]
+                got = {hp[i] for i, a in enumerate(c.args) if i < len(hp) and isinstance(a, ast.Name) and a.id in names}
+                got |= {k.arg for k in c.keywords if k.arg and isinstance(k.value, ast.Name) and k.value.id in names}
+                if got:
+                    role.setdefault(c.func.id, set()).update(got)
+                    work.append((c.func.id, role[c.func.id]))
+    for fname in ("lex_multichar_comments", "lex_singlechar_comments"):
+        fn = repo.function("lexer", fname)
+        nxts = role.get(fname, set())
+        for st, conds in flow.stmts_with_conds(fn.body):
+            if not isinstance(st, (ast.Return, ast.Assign)):
+                continue
+            src = norm(st, 300)
+            if "Preserve.COMMENT" not in src:
+                continue
+            n += 1
+            la = [norm(t, 60) for t, p in conds if isinstance(t, ast.expr) and any(isinstance(x, ast.Name) and x.id in nxts for x in ast.walk(t))]
+            res.oblige("PRESERVE-OPEN", f"{fname}: entering the comment state (`{norm(st, 50)}`) does not depend on the look-ahead character", ok=not la)
+            if la:
+                res.add(Finding("PRESERVE-OPEN", f"lexer.{fname}", "comment opener depends on the next character",
+                                f"{fname} enters the comment state only under `{la[0]}`: a comment whose text starts with that character is "
+                                "not recognised as a comment (its opener is taken for something else), so inserting it where white space is "
+                                "allowed breaks the label", where=f"pvl/lexer.py:{st.lineno}"))
+    res.floor("comment-opening returns in the lexer helpers", n, 1)
